@@ -29,8 +29,8 @@ OPEN = {
 	'C08': 'Open: `parse (compose h) = h` for whole collections as one theorem (`parse_line_step` is its inductive step; whole op sequences are compared with the code).',
 	'C09': 'Open: whole elements and lists (several parameters, quote parity across parameters, RFC 2231 continuations) as theorems; they are tied by correspondence for the four element classes.',
 	'C10': 'Open: `parse (compose c) = c` for all eight components at once (the three structured cuts are proved; the assembly is correspondence/oracle). IPv6 literals and IDN hosts go through socket/idna: oracle only.',
-	'C11': 'Open: `abspath = remove_dot_segments ∘ collapse` (RFC 3986 §5.2.4) as a theorem; compared on the exhaustive enumeration of paths over {a, ., .., empty} up to 7 segments and on random paths against a Lean and a Python transcription of the RFC.',
-	'C12': 'Open: the last link to RFC 5.2.4 is C11\'s open theorem.',
+	'C11': 'The RFC clause is now a theorem (`abspath_eq_rfc`, `normalize_path_rfc`; `Proofs/Rfc.lean`, `Proofs/RfcAbspath.lean`): the buffer-rewriting loop of RFC 3986 §5.2.4 is shown to be a stack machine on segments, and `abspath` (whose stack also holds, and may pop, the root segment) is related to it. Trusted there: the transcription of the RFC text.',
+	'C12': 'Degenerate references ("?", "#", "//", "s:") are outside the quantifier.',
 	'C13': 'The unguarded statement is false of the code (F1); `unquote_quote_fixed` proves it for the `%02X` variant, `c13_witness` exhibits the failure.',
 	'C14': 'zlib itself is a parameter. JSON and message/http: oracle on the real code.',
 	'C15': 'Partial by nature: time zone, DST and locale are runtime environment. The model has no such input (that is the claim); the correspondence runs the real code in child processes under 6 zones × the installed locales and requires the one model answer. RFC 850 / asctime round trips: correspondence + example, no general theorem.',
